@@ -17,7 +17,7 @@ RULE = ("Bool-typed filters of the SQLite fragment from the typed grammar (field
         "strings with ' % _ \\ \" ; --). Oracle: SELECT id FROM item WHERE <emitted clause> on real SQLite vs "
         "the reference evaluator, on decided rows only; an sqlite3 error or a library refusal is a violation. "
         "Non-trivial: >= 2 operator/function nodes and >= 1 decided row; distinct by (filter text, rows)."
-        " Plus a value-level sweep: for every arithmetic operator pair in both nestings (and unary minus / indexof / length templates as operands) E and every value v that E takes on a fixed 12-row table, the filter `E eq v` must select exactly the rows where E = v. Rows get 'confuser' strings derived from the literal needles of contains/startswith/endswith (needle embedded, % replaced by text, _ by one character, escape characters dropped). Integer div/mod are decided with truncation / dividend-sign semantics.")
+        " Plus a value-level sweep: for every arithmetic operator pair in both nestings (and unary minus / indexof / length templates as operands) E and every value v that E takes on a fixed 12-row table, the filter `E eq v` must select exactly the rows where E = v. Rows get 'confuser' strings derived from the literal needles of contains/startswith/endswith (needle embedded, % replaced by text, _ by one character, escape characters dropped). Integer div/mod are decided with truncation / dividend-sign semantics. Every case is followed by metamorphic companions in which one row's own integer values replace the Int columns: that row must fare alike (decides what the reference leaves open).")
 ASSUMPTIONS = [
     "PRAGMA case_sensitive_like=ON (LIKE case folding is an engine setting of the caller)",
     "datetimes are stored as 'YYYY-MM-DD HH:MM:SS' UTC text, dates as 'YYYY-MM-DD'",
@@ -93,6 +93,24 @@ def check_case(case, fenced=True):
     case["_stats"] = stats
     if bad:
         return (bad[0], "%r -> WHERE %s ; %s" % (text, sql, bad[1]))
+    # metamorphic companion: the row's own integer values written as literals must not change the row's fate
+    # (this also decides rows the reference leaves open: negative mod, inexact division)
+    ran = skipped = 0
+    for i, t2 in semcheck.literalised(t, case["rows"], case.get("style_seed", 0)):
+        text2 = printer.render(t2, style_of(case))
+        try:
+            sql_l = AstToSqliteSqlVisitor().visit(lib.parse(text2))
+            ids_l = set(db_sqlite.select_ids(sql_l))
+        except Exception:
+            skipped += 1        # the companion may leave the supported fragment or hit an engine limit: nothing is decided
+            continue
+        ran += 1
+        if ((i + 1) in ids_l) != ((i + 1) in set(ids)):
+            return ("literalised-row-differs", "row %d %r: %r -> WHERE %s %s it, but with its integer values as literals %r -> WHERE %s %s it" % (
+                i + 1, case["rows"][i], text, sql, "selects" if (i + 1) in set(ids) else "does not select", text2, sql_l,
+                "selects" if (i + 1) in ids_l else "does not select"))
+    stats["literalised_ran"] = ran
+    stats["literalised_skipped"] = skipped
     return None
 
 
@@ -236,6 +254,8 @@ def run_task(task, seed, acc):
         acc.cls("rows_selected", stats.get("selected", 0))
         acc.cls("rows_excluded_by_known_finding", stats.get("excluded_by_known_finding", 0))
         acc.cls("filters_beyond_an_engine_limit", stats.get("engine_limit", 0))
+        acc.cls("literalised_companions_run", stats.get("literalised_ran", 0))
+        acc.cls("literalised_companions_undecided", stats.get("literalised_skipped", 0))
         for c in classes_of(t, case["rows"]):
             acc.cls(c)
         if r:
